@@ -379,6 +379,19 @@ def check(ctx: Ctx, col: Collector, tier: str) -> None:
             probs.append(f"plain class -> {o.value!r}")
     (col.ok if not probs else col.bad)("C05.CTOR-TABLE", key, repo.loc(VISITOR, vfi.node), "; ".join(probs) or "class with args -> NamedSequenceType, without -> NamedType(name, fullname)",
                                        *([] if not probs else [f"user class: {probs[0]}"]))
+    # mypy flattens nested unions when it builds them, but not through type aliases: `Optional[IntOrStr]` is Union[IntOrStr, None] with an
+    # alias item.  Since aliases are expanded (TypeAliasType case), the members of such a union have to be flattened before they are translated.
+    uouts = run_v("UnionType")
+    uvals = [o.value for o in uouts if o.kind == "return" and isinstance(o.value, Obj) and o.value.cls == "sds.UnionType"]
+    flattened = bool(uvals) and all("flatten" in repr(v.get("types")) for v in uvals)
+    key = f"{vkey}::UnionType::members-flattened"
+    if flattened:
+        col.ok("C05.CTOR-TABLE", key, repo.loc(VISITOR, vfi.node), "union members are flattened (through aliases) before they are translated")
+    else:
+        col.bad("C05.CTOR-TABLE", key, repo.loc(VISITOR, vfi.node), f"types = {uvals[0].get('types')!r}"[:160] if uvals else "no UnionType result",
+                "the members of a union are translated one by one without flattening unions that come in through a type alias: `IntOrStr = Union[int, str]; def f(a: Optional[IntOrStr], b: Union[IntOrStr, int])` "
+                "is emitted as `a: union<union<Int, String>, Nothing?>`, `b: union<Int, union<Int, String>>` (duplicate kept), and `Mode = Literal[\"a\", \"b\"]; c: Mode | None` as "
+                "`union<literal<\"a\", \"b\">, Nothing?>` instead of one literal with null")
     # a class of a library that could not be imported: mypy's Any records the *import* that failed (`numpy` for `import numpy as np`),
     # the class is only spelled in the annotation (`np.ndarray`)
     sta = State({"self": Sym("self")})
